@@ -107,6 +107,24 @@ func (sc *specCtx) trT(x *core.Sexp) (string, types.Type) {
 	case "cap":
 		s, _ := sc.trT(args[0])
 		return "(s_cap " + s + ")", types.Typ[types.Int]
+	case "off":
+		s, _ := sc.trT(args[0])
+		return "(s_off " + s + ")", types.Typ[types.Int]
+	case "arr":
+		// the backing array of a slice (scalar element types): (Array Int <elem sort>)
+		s, t := sc.trT(args[0])
+		u, ok := typeUnder(t).(*types.Slice)
+		if !ok {
+			sc.fail("arr of non-slice")
+			return "0", nil
+		}
+		lfs := g.leaves("E_"+typeKey(u.Elem()), u.Elem())
+		if len(lfs) != 1 {
+			sc.fail("arr of a slice of structs")
+			return "0", nil
+		}
+		b := g.base(sc.st, lfs[0].name, g.leafSort(lfs[0].typ), 2, false)
+		return "(select " + b + " (s_arr " + s + "))", nil
 	case "idx":
 		if len(args) != 2 {
 			sc.fail("idx takes two arguments")
@@ -184,6 +202,32 @@ func (sc *specCtx) trT(x *core.Sexp) (string, types.Type) {
 		}
 		r := g.load(sc.st, g.locOfPointer(p))
 		return r.S, r.T
+	case "elems":
+		// (elems <elemtype> slice): backing array of a slice term whose Go type is not known to the translator
+		if len(args) != 2 || !args[0].IsAtom() {
+			sc.fail("elems takes an element type name and a slice")
+			return "0", nil
+		}
+		name := "E_" + args[0].Atom
+		bi, ok := g.Eng.baseInfos[name]
+		leaf, nidx := "Int", 2
+		if ok {
+			leaf, nidx = bi.leaf, bi.nidx
+		} else if args[0].Atom == "Value" {
+			leaf = "Val"
+		}
+		b := g.base(sc.st, name, leaf, nidx, false)
+		sl := sc.tr(args[1])
+		return "(select " + b + " (s_arr " + sl + "))", nil
+	case "setin":
+		// (setin <map type key> ref key): membership in a map-backed set given by reference
+		if len(args) != 3 || !args[0].IsAtom() {
+			sc.fail("setin takes a map type key, a reference and a key")
+			return "false", nil
+		}
+		name := "M_" + args[0].Atom + ".dom"
+		b := g.base(sc.st, name, "(Array Int Bool)", 1, false)
+		return "(select (select " + b + " " + sc.tr(args[1]) + ") " + sc.tr(args[2]) + ")", types.Typ[types.Bool]
 	case "mapin", "mapget":
 		s, t := sc.trT(args[0])
 		k := sc.tr(args[1])
